@@ -105,6 +105,15 @@ def run_case(case, ctx):
             check_norms(ctx, S, lsops.exact_ref(S), "exact", {"A": sa, "scaled": s}, ps=PS if 1e-2 <= s <= 1e3 else PS[:-1])
             M = ctx.call(lambda: s * A)  # ordinates only
             check_norms(ctx, M, lsops.exact_ref(M), "exact", {"A": sa, "times": s}, ps=PS if 1e-2 <= s <= 1e3 else PS[:-1])
+        # the same function with INTEGER critical values (Python ints / NumPy integers), larger ordinates and
+        # large exponents: |y|^(p+1) must not be evaluated in integer arithmetic (it wraps around beyond 2^63)
+        if sa[0] == "cp":
+            from persim import PersLandscapeExact
+
+            for mk, what in ((lambda v: int(v), "Python ints"), (lambda v: np.int64(v), "np.int64")):
+                I = PersLandscapeExact(critical_pairs=[[[mk(2 * x), mk(3 * y)] for x, y in depth] for depth in sa[1]], hom_deg=0)
+                check_norms(ctx, I, [P.make([(2 * float(x), 3 * float(y)) for x, y in depth]) for depth in sa[1]], "exact",
+                            {"A": sa, "integer_critical_values": what, "scaled": [2, 3]}, ps=[1, 2, 7, 25, 40, 50, 100])
         for sb in specs:
             B = lsops.build_exact(sb)
             D = ctx.call(lambda: A - B)
